@@ -23,11 +23,21 @@ RULES = {
     'R3': 'EXPR of get_stability_count and of its table argument',
     'R4': 'co-location of tip label updates and apply_block; initial values',
     'R5': 'EXPR of the depth helper',
+    'R6': 'the page token of a filtered response names the cut tip B (= C06.R1)',
 }
 ASSUMPTIONS = ['depths and confirmation counts fit i32 (no wrap in `as i32`)']
 
 
 def run(ctx):
+    _run(ctx)
+    # R6: the answer is "as of block B" on every page: the page token a filtered response hands out names
+    # the cut tip B it reports, not the best tip (shared with C06.R1)
+    from sa.engine import SubCtx
+    from rules import c06
+    c06.run(SubCtx(ctx, {'R1': 'R6'}))
+
+
+def _run(ctx):
     prog = ctx.prog
     f = ctx.fn('R1', GU + 'get_utxos_from_chain')
     if f:
